@@ -104,6 +104,46 @@ fn ffi_eval(ffi: &Ffi, t: &Tuple) -> Vec<(String, String)> {
 }
 
 /// Output buffer == (a prefix of) the salt / password buffer; the aliased input sits inside a guarded arena.
+/// Four threads call the exported function at the same time, each 200 times, each with its own password (and its own
+/// output length): every call must write the value for its own inputs. The threads run freely -- this part SAMPLES
+/// schedules; it is a supplementary pass and is labelled so in the evidence.
+fn ffi_concurrent_eval(ffi: &Ffi, t: &Tuple) -> Vec<(String, String)> {
+    let nthreads = 4usize;
+    let rounds = 200usize;
+    let inputs: Vec<(Vec<u8>, usize, Vec<u8>)> = (0..nthreads)
+        .map(|i| {
+            let mut pw = t.pw.clone();
+            pw.push(b'0' + i as u8);
+            let dk = t.dk + 8 * (i % 2);
+            let want = r::scrypt(&pw, &t.salt, t.n as u64, t.r as u64, t.p as u64, dk);
+            (pw, dk, want)
+        })
+        .collect();
+    let barrier = std::sync::Barrier::new(nthreads);
+    let wrong = std::sync::atomic::AtomicU64::new(0);
+    std::thread::scope(|sc| {
+        for (pw, dk, want) in &inputs {
+            let (barrier, wrong) = (&barrier, &wrong);
+            sc.spawn(move || {
+                barrier.wait();
+                for _ in 0..rounds {
+                    let mut out = vec![0u8; *dk];
+                    unsafe { (ffi.f)(pw.as_ptr(), pw.len(), t.salt.as_ptr(), t.salt.len(), t.n, t.r, t.p, out.as_mut_ptr(), *dk) };
+                    if out != *want {
+                        wrong.fetch_add(1, std::sync::atomic::Ordering::Relaxed);
+                    }
+                }
+            });
+        }
+    });
+    let w = wrong.load(std::sync::atomic::Ordering::Relaxed);
+    if w > 0 {
+        vec![("ffi/value-differs-under-concurrent-calls".into(), format!("{} of {} calls of the exported C scrypt made by {} threads at the same time ({}) wrote a value that is not the RFC 7914 value of their own inputs", w, nthreads * rounds, nthreads, t.descr()))]
+    } else {
+        vec![]
+    }
+}
+
 fn ffi_overlap_eval(ffi: &Ffi, t: &Tuple, over_salt: bool) -> Vec<(String, String)> {
     let mut findings = vec![];
     let want = r::scrypt(&t.pw, &t.salt, t.n as u64, t.r as u64, t.p as u64, t.dk);
@@ -156,6 +196,7 @@ pub fn ffi_child_main(a: &[String]) -> ! {
                 unsafe { (ffi.f)(t.pw.as_ptr(), t.pw.len(), t.salt.as_ptr(), t.salt.len(), t.n, t.r, t.p, out.as_mut_ptr(), t.dk) };
                 vec![]
             }
+            4 => ffi_concurrent_eval(&ffi, &t),
             1 => ffi_overlap_eval(&ffi, &t, true),
             2 => ffi_overlap_eval(&ffi, &t, false),
             _ => ffi_eval(&ffi, &t),
@@ -200,13 +241,13 @@ fn ffi_batch(rep: &Report, jobs: &[(Tuple, u8)], tag: &str) {
                 rep.nontrivial(format!("ffi-{}-{:?}-{}", tag, t, m).as_bytes());
                 let f: Vec<(String, String)> = serde_json::from_str(js).unwrap_or_default();
                 for (clause, msg) in f {
-                    let mut j = t.json(if *m == 0 { "ffi" } else { "ffi-overlap" });
+                    let mut j = t.json(if *m == 0 { "ffi" } else if *m == 4 { "ffi-concurrent" } else { "ffi-overlap" });
                     // calls with rejected parameters that came before it in the same process are part of the case
                     if let Some((rj, _)) = jobs[..i].iter().rev().find(|(_, mm)| *mm == 3) {
                         j["after_rejected"] = rj.json("ffi");
                     }
                     let msg = if j.get("after_rejected").is_some() { format!("{} [after a call with rejected parameters ({}) in the same process]", msg, jobs[..i].iter().rev().find(|(_, mm)| *mm == 3).map(|(rj, _)| rj.descr()).unwrap_or_default()) } else { msg };
-                    if *m != 0 {
+                    if *m != 0 && *m != 4 {
                         j["over"] = json!(if *m == 1 { "salt" } else { "password" });
                     }
                     rep.violation(&clause, j, msg);
@@ -235,7 +276,7 @@ fn ffi_batch(rep: &Report, jobs: &[(Tuple, u8)], tag: &str) {
         rep.eval(1);
         rep.violation(
             "ffi/crash",
-            t.json(if *m == 0 { "ffi" } else { "ffi-overlap" }),
+            t.json(if *m == 0 { "ffi" } else if *m == 4 { "ffi-concurrent" } else { "ffi-overlap" }),
             format!("the process calling the exported C scrypt died during {} (signal {:?}, exit {:?}): {}", t.descr(), o.status.signal(), o.status.code(), err.lines().rev().find(|l| !l.trim().is_empty()).unwrap_or("").chars().take(160).collect::<String>()),
         );
         crashes += 1;
@@ -505,6 +546,10 @@ fn after_rejected_calls(rep: &Report) {
     let batches: Vec<Vec<(Tuple, u8)>> = rejected.iter().map(|rj| vec![(valid[0].clone(), 0u8), (rj.clone(), 3u8), (valid[0].clone(), 0u8), (valid[1].clone(), 0u8)]).collect();
     batches.par_iter().enumerate().for_each(|(k, b)| ffi_batch(rep, b, &format!("after-rejected-{}", k)));
     rep.extra("after_rejected_call_sequences", json!(batches.len()));
+    // supplementary, free-running: concurrent calls from four threads (sampling of schedules, not exhaustive)
+    let conc = vec![(mk(16, 2, 1), 4u8), (mk(64, 1, 2), 4u8)];
+    ffi_batch(rep, &conc, "concurrent");
+    rep.extra("concurrent_c_calls", json!({"threads":4,"rounds":200,"tuples":2,"note":"free-running threads: a sample of schedules"}));
 }
 
 pub fn run(rep: &'static Report) {
@@ -591,6 +636,10 @@ pub fn replay(rep: &'static Report, case: &Value) {
         p: case["p"].as_u64().unwrap() as u32,
         dk: case["dk"].as_u64().unwrap() as usize,
     };
+    if case["via"] == "ffi-concurrent" {
+        ffi_batch(rep, &[(t, 4)], "replay");
+        return;
+    }
     if case["via"] == "ffi-overlap" {
         ffi_batch(rep, &[(t, if case["over"] == "salt" { 1 } else { 2 })], "replay");
         return;
